@@ -24,10 +24,11 @@ class StrV(object):
 
 class SeqV(object):
     """logical sequence: (inner array term, offset, length) - heap independent"""
-    __slots__ = ('a', 'off', 'len', 'elem')
+    __slots__ = ('a', 'off', 'len', 'elem', 'alt')
 
-    def __init__(self, a, off, len_, elem):
+    def __init__(self, a, off, len_, elem, alt=None):
         self.a, self.off, self.len, self.elem = a, off, len_, elem
+        self.alt = alt      # inner array of the same memory viewed as []rune (util.Chars idiom)
 
 
 class StructV(object):
